@@ -111,4 +111,30 @@ CLAIMED["C18"] = {
 ENGINES[0]["serves_properties"] = ["C01", "C02", "C03", "C04", "C05", "C06", "C09", "C10", "C14", "C17", "C18", "C19"]
 ENGINES[1]["serves_properties"] = ["C07", "C11", "C16"]
 ENGINES[2]["serves_properties"] = ["C01", "C02", "C10", "C18", "C19"]
-NOT_CLAIMED = {}
+CLAIMED["C12"] = {
+    "engine": "seqspace",
+    "technique": "exhaustive over all 4^n determinants (n_orbs 1-3, 4 thorough), every encoding/ordering/sector, every penalty target x weight, and every one-hot / two-hot parameter vector of the particle-conserving ansaetze, vs explicit Fock-space N, S_z, S^2 matrices",
+    "text": "(a) number/spinz/spin2 operators as matrices in the reference Fock basis equal the reference N, S_z, S^2 on all determinants; (b) under JW/BK/scBK (each sector)/JKMN and both orderings the encoded operators have the reference spectra and every encoded determinant is an eigenstate with zero variance; (c) [H,N]=[H,S_z]=[H,S^2]=0 for a molecular catalogue, fermionic (normal-ordered term by term) and encoded; (d) all penalties equal mu*(O-t)^2, are PSD and vanish exactly on the target sector, combined_penalty over every key subset; (e) under Jordan-Wigner, both orderings: UCCSD (RHF/ROHF/UHF), UpCCGSD k=1,2, UCCGD, UCC1/UCC3, pUCCD, ADAPT with fermionic pools conserve N and S_z for one-hot at every position, two-hot at every pair and dense vectors (numpy statevector, independent JW of the reference operators).",
+    "note": "Trusted: mc/ref/fermion.py, statevec.py. Not claimed: S^2 conservation by ansaetze, UHF [H,S^2]. Penalty targets within 1e-8 of a cancellation value excluded (openfermion drops terms below 1e-8).",
+}
+CLAIMED["C13"] = {
+    "engine": "seqspace",
+    "technique": "exhaustive product of a catalogue (molecule x reference x frozen pattern x solver x encoding x ordering x parameter vector x spin form) with numpy contractions against PySCF integrals",
+    "text": "For H2, H3 doublet, H4, H4 triplet (thorough: LiH, H2O) x RHF/ROHF/UHF x 3-6 frozen patterns: FCI, CCSD, MP2 and VQE (UCCSD, UpCCGSD; JW+scBK quick, all four encodings thorough; both orderings; zero/dense/one-hot/alternating parameters; sum_spin on/off, get_rdm_uhf) RDMs must reproduce the solver's energy at the same point (VQE: energy_estimation(theta)) through mol.energy_from_rdms, the module-level function and an independent numpy contraction; 1-RDM Hermitian, 2-RDM Hermitian in its stated convention; traces equal active electron counts when the state is a number eigenstate; padding with frozen orbitals leaves its arguments bytewise unchanged, carries the total electron count and the same energy.",
+    "note": "Trusted: PySCF integrals (mc/ref/chem.py). Not asserted: return format of MP2Solver.get_rdm for ROHF (spin-resolved tuples; no documented energy), particle-exchange symmetry of CCSD ROHF 2-RDM (counted).",
+}
+CLAIMED["C15"] = {
+    "engine": "seqspace",
+    "technique": "exhaustive product inside each family: ONIOM (geometry x selection x solver pair x link x factor), Link.relink (every ordered atom pair x species x factor), DMET (molecule x fragmentation x localisation x solver x every atom relabelling), method of increments (complete tables on 1-4(5) centres)",
+    "text": "ONIOM: 1105 (2675) runs - identical levels give E_low(system), whole-system model gives E_high(system), the defining formula with layer energies recomputed in the harness; Link.relink: 2064 cases, cap position at the requested fraction (1e-12), group rigidity and axis. DMET: whole-molecule, pair, single and nested fragmentations with meta-Lowdin/NAO (IAO thorough), fci/ccsd(/vqe) fragment solvers, every permutation of the atom order: full-span embeddings (measured from the bath sizes) reproduce the exact energy at mu=0 and after simulate(), final electron mismatch within the optimiser tolerance, invariance under relabelling. MI: full-order mi_summation equals the complete fragment's energy for one-hot, two-hot and dense tables with corrections and overrides.",
+    "note": "Trusted: PySCF FCI/CCSD as exact solvers. Not covered: FNO increments, QM/MM (external data), UHF/ROHF DMET, ECPs, fragments > 8 qubits for VQE.",
+}
+CLAIMED["C20"] = {
+    "engine": "seqspace+choicetree",
+    "technique": "exhaustive enumeration of qubit lists/options (QFT), of amplitude vectors over a small alphabet (StateVector), of (register size, k, Hamiltonian family, unitary kind) for QPE; iterative QPE under the choice-tree explorer owning every random draw",
+    "text": "QFT: every ordered list of 1-3 (thorough 4) qubits of a width-4 register, int form, n_qubits, swap, inverse: unitary equals the DFT on the listed register (first listed least significant) tensor identity, inverse equals adjoint. StateVector: all 24 one-qubit, 624 two-qubit vectors over {0,1,-1,i,1+i}, 480 sparse and 40 dense three-qubit vectors x both orders x set_n_qubits: e^{i phase} circuit|0> == v, uncomputing circuit maps v to |0..0>. QPE: m in {1,2,3}, every k, diagonal and commuting non-diagonal Hamiltonians, Trotter (orders 1,2,4; time/repeat) and circuit unitaries: the bitstring of k has frequency 1 and the returned phase is k/2^m; iterative QPE with n_shots 1-2: in EVERY execution of the choice tree every measured bit is the bit of k and every branch probability is 0/1.",
+    "note": "Each QPE case's premise (exact eigenphase) is verified on a dense numpy unitary first (a failed premise is a harness error). Only the cirq backend; registers up to m=3.",
+}
+ENGINES[0]["serves_properties"] = ["C01", "C02", "C03", "C04", "C05", "C06", "C09", "C10", "C12", "C13", "C14", "C15", "C17", "C18", "C19", "C20"]
+ENGINES[2]["serves_properties"] = ["C01", "C02", "C10", "C18", "C19", "C20"]
+NOT_CLAIMED = {"C08": "check under construction in this round (builder still running); will be claimed once it runs silent on the unchanged tree"}
